@@ -431,6 +431,20 @@ class SimProxy(SupervisorProxy):
     def _get_proxy(self):
         return RemoteStub(self.owner, self.status.supvisors_id.host_id, self.status.supvisors_id.http_port)
 
+    def publish(self, from_identifier, publication_message):
+        # observation of the real decision (the parent's code decides): a non-TICK publication is silently skipped
+        # when the receiver is not active for the sender at the time the proxy thread serves the message
+        try:
+            if publication_message[0] != PublicationHeaders.TICK.value and \
+                    self.status.state.name in ('STOPPED', 'ISOLATED'):
+                body = publication_message[1]
+                what = f"{body.get('group')}:{body.get('name')}" if isinstance(body, dict) and 'group' in body else ''
+                self.owner.world.obs('not_sent', self.owner.idx, self.dest_identifier,
+                                     PublicationHeaders(publication_message[0]).name, what, self.status.state.name)
+        except Exception:
+            pass
+        return SupervisorProxy.publish(self, from_identifier, publication_message)
+
 
 def _msg_kind(etype, body) -> str:
     try:
